@@ -13,18 +13,30 @@ from mc import codec
 from mc.report import add_sample, add_violation, count, new_part
 
 LEVEL = "exploration"
-RULE = ("route in {direct, direct after an earlier encoding of the same objects, text, sdk} x flavour x class x operand field x out-of-range value (just outside: max+1, min-1; "
-        "far outside: 2*max, 1000, +-2^40) x two backgrounds for the other fields; header: app id / version bytes outside "
+RULE = ("route in {direct, direct after an earlier encoding of the same objects, text, sdk} x flavour x class x operand field x out-of-range value (every value of a band of 40-300 values on both "
+        "sides of each range, and +-2^k, +-2^k+-1 up to 2^71) x two backgrounds for the other fields; header: app id / version bytes outside "
         "their widths; oracle: bytes() raises or deserialize(bytes) equals the requested program; distinct = distinct "
         "(route, flavour, mnemonic, field, value, background); every case is non-trivial (it has an unrepresentable operand)")
 ASSUMPTIONS = ["register banks cannot be out of range (they are an Enum); only indices are varied",
                "SDK route uses netqasm.sdk.connection.DebugConnection (no controller needed: the property is about encoding)"]
 
 FLAVOURS = ["vanilla", "nv", "reids"]
+# every value of a contiguous band on both sides of each range (a check written with a mask, a bit length or an absolute value
+# fails on a band, not on a point), plus powers of two and their neighbours far outside
+def _far(lo_bits: int):
+    out = []
+    for k in range(lo_bits, 72):
+        for v in (2 ** k, 2 ** k + 1, 2 ** k - 1, -(2 ** k), -(2 ** k) - 1, -(2 ** k) + 1):
+            out.append(v)
+    return out
+
+
 OOR = {
-    "reg": [16, 17, 31, 32, 64, 255, 256, 1000, -1, -16, 2 ** 40],
-    "imm8": [256, 257, 511, 512, 1000, 65536, -1, -128, -256, 2 ** 40, -(2 ** 40)],
-    "int32": [2 ** 31, 2 ** 31 + 1, 2 ** 32 - 1, 2 ** 32, 2 ** 32 + 5, -(2 ** 31) - 1, -(2 ** 32), 2 ** 40, -(2 ** 40)],
+    "reg": sorted(set(list(range(16, 80)) + list(range(-40, 0)) + [255, 256, 1000] + [v for v in _far(7) if abs(v) > 100][:60])),
+    "imm8": sorted(set(list(range(256, 560)) + list(range(-300, 0)) + [v for v in _far(9) if not 0 <= v <= 255])),
+    "int32": sorted(set(list(range(2 ** 31, 2 ** 31 + 40)) + list(range(2 ** 32 - 40, 2 ** 32 + 40)) +
+                        list(range(-(2 ** 31) - 40, -(2 ** 31))) + list(range(-(2 ** 32) - 40, -(2 ** 32) + 40)) +
+                        [v for v in _far(31) if not -(2 ** 31) <= v < 2 ** 31])),
 }
 KINDNAME = {"reg": "register-index", "imm8": "imm8", "int32": "int32"}
 
